@@ -46,4 +46,31 @@ theorem every_call_with_termination_watches_its_context :
     Wz.Gen.Shapes.get "c07.watch_cond_interp" = some "ce.f.parent.ensureTermination" := by
   decide
 
+/-! ## noticing the close: the whole closed word, for both modules
+
+`Closed` holds `flag ||| exitCode <<< 32` (flag 1 or 2).  "Closed with exit code 0" and "never closed" differ only in
+the flag bits, so running code must test the WHOLE word (`closed_after` in Props/C07.lean proves the word non-zero for
+every cause and code, 0 included); a test of the exit-code half alone misses a plain `Close()` (witness, seeded change
+C07-7).  The interpreter's exit-code check looks at the module of the running frame AND at the module the call was made
+on (they differ when the loop sits in an imported function); both through `FailIfClosed`. -/
+
+/-- the closed word -/
+def closedWord (flag code : Nat) : Nat := flag + code * 2 ^ 32
+
+theorem closed_word_nonzero (flag code : Nat) (hf : 0 < flag) : closedWord flag code ≠ 0 := by
+  unfold closedWord; omega
+
+theorem closed_word_code (flag code : Nat) (hf : flag < 2 ^ 32) : closedWord flag code / 2 ^ 32 = code := by
+  unfold closedWord; omega
+
+/-- looking at the exit-code half only: `Close()` (exit code 0) is invisible -/
+theorem exit_code_half_misses_plain_close_witness : closedWord 1 0 ≠ 0 ∧ closedWord 1 0 / 2 ^ 32 = 0 := by decide
+
+set_option maxRecDepth 8192 in
+/-- the tests on the source, regenerated -/
+theorem closed_is_noticed_on_the_whole_word_for_both_modules :
+    Wz.Gen.Shapes.get "c07.closed_test" =
+      some "FailIfClosed: closed := m.Closed.Load(); closed != 0 ;; interpreter check: err := m.FailIfClosed(); err != nil | cm := ce.f.moduleInstance; cm != m | err := cm.FailIfClosed(); err != nil" := by
+  decide
+
 end Wz.C07
